@@ -656,6 +656,19 @@ def derive_history_case(ck, case, out):
     if case.get("_expect_segs") is not None and jq(snap) != jq([list(x) for x in case["_expect_segs"]]):
         ck.witness("C13:history:cell-altered", "the history %s changed the cell's segments" % json.dumps(case["history"]),
                    input=strip(case), expected=jq(case["_expect_segs"]), observed=jq(snap))
+    ref0 = case["_ref"]
+    if case.get("_expect_segs") is None:
+        # a history with sectioning: the segments may only have gained explicit proximals equal to their effective proximal
+        bad = [x[0] for x in snap] != [x[0] for x in case["_segs"]]
+        for b, a in zip(case["_segs"], snap):
+            if bad or (b[1], b[2], b[4]) != (a[1], a[2], a[4]) or (b[3] is not None and a[3] != b[3]) or \
+                    (b[3] is None and a[3] is not None and a[3] != ref0["aprox"][b[0]]):
+                bad = True
+                ck.witness("C13:history:cell-altered", "sectioning in the history %s changed more than making effective proximals "
+                           "explicit" % json.dumps(case["history"]), input=strip(case), expected=jq(b), observed=jq(a))
+                break
+        if bad:
+            return case          # judged on the original cell
     case["_segs"] = snap
     case["_ref"] = reference(snap)
     # what the methods left cached on the object must be the adjacency list of the cell as it is now
